@@ -1305,6 +1305,98 @@ theorem C15_sender_probe : Generated.C15.senderProbe = some ((List.range 6).map 
 
 end Sender
 
+/-! ### the composition: writer, wire, receiver with flow control, reader (round G) -/
+section Composition
+open XmppModel.IbbWriteSide
+
+/-- C15_end_to_end_flow — `C15_end_to_end` without its two restrictions (unlimited buffer, reader
+idle).  The writer does anything (any partition into Write / Flush / Close, any block size: the
+executable packetiser, `C15_packetiser_emits`); the receiver starts with ANY buffer limit; the
+receiver's history is ANY interleaving of the sender's packets — each one possibly refused for
+lack of room and sent again, any number of times —, packets that are not the stream's (another
+session id, another sender: `C15_foreign_stanzas_inert`), corrupt / stale / repeated packets, reads
+of any sizes and limit changes, such that the packets that end up acknowledged are the sender's
+(`C15_flow_acked_consecutive`: no other sequence can be).  Then what the reader has got plus what is
+still buffered is a prefix of the bytes written, in order, each once, unmodified (`C15_flow_pipe`,
+`C15_flow_exactly_once`); after `Close` it is all of them; and once the reader has drained the
+buffer of the closed stream every further Read is end-of-file, not before (`C15_eof_only_when_drained`). -/
+theorem C15_end_to_end_flow (bs maxBuf : Nat) (wops : List SOp) (ops : List FOp)
+    (hacked : (flowRun std ⟨true, 0, [], maxBuf⟩ ops).acked = packetsOf bs wops) :
+    let r := flowRun std ⟨true, 0, [], maxBuf⟩ ops
+    (r.delivered ++ r.st.buf).isPrefixOf (writtenOf false wops) = true ∧
+    (SOp.close ∈ wops → r.delivered ++ r.st.buf = writtenOf false wops) ∧
+    (SOp.close ∈ wops → ∀ n, (readOut (Ibb.close r.st) n = .eof ↔ r.delivered = writtenOf false wops)) := by
+  have h := C15_flow_pipe std _ _ _ maxBuf ops (C15_packetiser_emits bs wops) hacked
+  simp only [] at h
+  refine ⟨h.1, fun hc => h.2 (by simp [hc]), ?_⟩
+  intro hc n
+  have hall := h.2 (by simp [hc])
+  rw [(C15_eof_only_when_drained _ n).1]
+  constructor
+  · intro hb; rw [hb, List.append_nil] at hall; exact hall
+  · intro hd
+    rw [hd] at hall
+    exact List.append_cancel_left (as := writtenOf false wops) (by simpa using hall)
+
+/-- the same history with every stanza that is not the stream's removed gives the same bytes: what
+third parties and other streams send plays no role in `C15_end_to_end_flow` -/
+theorem C15_end_to_end_flow_ignores_foreign (maxBuf : Nat) (ops : List FOp) :
+    (flowRun std ⟨true, 0, [], maxBuf⟩ (dropForeign ops)).acked = (flowRun std ⟨true, 0, [], maxBuf⟩ ops).acked ∧
+    (flowRun std ⟨true, 0, [], maxBuf⟩ (dropForeign ops)).delivered = (flowRun std ⟨true, 0, [], maxBuf⟩ ops).delivered :=
+  ⟨(C15_foreign_stanzas_inert std ops _).2.1, (C15_foreign_stanzas_inert std ops _).2.2⟩
+
+/-- the writer's side under EVERY schedule of application and serving goroutine (write-side LTS,
+lock discipline `C15_write_side_locked`): the bytes accepted are the chunks of the Write calls in
+the order in which they took the lock, and what is on the wire plus what is buffered is exactly
+that — so the concurrent run is the sequential history `writesOf acts` as far as bytes are
+concerned, and `C15_end_to_end_flow` applies to it -/
+theorem C15_write_side_linearises (acts : List Act) (s : St) (h : run true {} acts = some s) :
+    s.written = (writesOf acts).flatten ∧ s.wire ++ s.buf = (writesOf acts).flatten ∧
+    s.written = writtenOf false ((writesOf acts).map SOp.write) := by
+  have hw := run_written true acts {} s h
+  simp only [List.nil_append] at hw
+  refine ⟨hw, by rw [C15_write_side_exactly_once acts s h, hw], ?_⟩
+  rw [hw]
+  generalize writesOf acts = cs
+  induction cs with
+  | nil => rfl
+  | cons c cs ih => simp [writtenOf, ih]
+
+/-- BOTH DIRECTIONS, all schedules: two endpoints A and B, each writing on its side under any
+interleaving of its own goroutines (`actsA`, `actsB`), each then closing; the packets travel as the
+packetiser cuts them (any block sizes), each receiver with its own limit and its own history (reads,
+refusals and re-sends, foreign and bad packets).  What B's reader gets plus what B still buffers is
+exactly what A's Write calls accepted, in lock order, and vice versa; the two directions share
+nothing (`C15_both_directions`). -/
+theorem C15_end_to_end_duplex (bsA bsB maxA maxB : Nat) (actsA actsB : List Act) (sA sB : St)
+    (opsAtB opsAtA : List FOp)
+    (hA : run true {} actsA = some sA) (hB : run true {} actsB = some sB)
+    (hackB : (flowRun std ⟨true, 0, [], maxB⟩ opsAtB).acked = packetsOf bsA ((writesOf actsA).map SOp.write ++ [.close]))
+    (hackA : (flowRun std ⟨true, 0, [], maxA⟩ opsAtA).acked = packetsOf bsB ((writesOf actsB).map SOp.write ++ [.close])) :
+    (flowRun std ⟨true, 0, [], maxB⟩ opsAtB).delivered ++ (flowRun std ⟨true, 0, [], maxB⟩ opsAtB).st.buf = sA.written ∧
+    (flowRun std ⟨true, 0, [], maxA⟩ opsAtA).delivered ++ (flowRun std ⟨true, 0, [], maxA⟩ opsAtA).st.buf = sB.written := by
+  have wr : ∀ cs : List Bytes, writtenOf false (cs.map SOp.write ++ [.close]) = cs.flatten := by
+    intro cs; induction cs with
+    | nil => rfl
+    | cons c cs ih => simp [writtenOf, ih]
+  constructor
+  · have := (C15_end_to_end_flow bsA maxB _ opsAtB hackB).2.1 (by simp)
+    rw [this, wr, (C15_write_side_linearises actsA sA hA).1]
+  · have := (C15_end_to_end_flow bsB maxA _ opsAtA hackA).2.1 (by simp)
+    rw [this, wr, (C15_write_side_linearises actsB sB hB).1]
+
+/-- non-vacuity of the composition: A writes `ABC` `DEF` (block size 3) and closes; B has a limit of
+4 bytes: packet 1 is refused, B reads, packet 1 is sent again; a third party's packet is refused;
+B's reader gets `ABCDEF`, then end-of-file -/
+example :
+    let ops : List FOp := [.pkt ⟨true, 0, [81, 85, 74, 68]⟩, .pkt ⟨true, 1, [82, 69, 86, 71]⟩, .pkt ⟨false, 1, [90, 88, 90, 112]⟩,
+      .read 8, .pkt ⟨true, 1, [82, 69, 86, 71]⟩, .read 8]
+    (flowRun std ⟨true, 0, [], 4⟩ ops).acked = packetsOf 3 [.write [65, 66, 67], .write [68, 69, 70], .close] ∧
+    (flowRun std ⟨true, 0, [], 4⟩ ops).delivered = [65, 66, 67, 68, 69, 70] ∧
+    readOut (Ibb.close (flowRun std ⟨true, 0, [], 4⟩ ops).st) 8 = .eof := by decide
+
+end Composition
+
 /-! ### the executable codec instance: spot checks -/
 example : std.dec (std.enc [1, 2, 3, 4, 5]) = some [1, 2, 3, 4, 5] := by decide
 example : std.dec [81, 85, 74, 68, 10, 82, 65, 61, 61] = some [65, 66, 67, 68] := by decide
